@@ -124,6 +124,37 @@ def _is_exc(atoms) -> bool:
     return G_EXC in atoms or any(a.startswith("cls:") for a in atoms)
 
 
+def check_delivery_channel(ctx, rule: str) -> None:
+    """The dispatcher's sync method calls on_event only, the async one calls on_event_async where a processor has it:
+    an event sent through the sync method from a coroutine never reaches an async-only processor, so its span is never
+    closed for that processor (and the other way round a coroutine would never be awaited)."""
+    db, rep = ctx.db, ctx.rep
+    disp = db.cls("events.dispatcher.EventDispatcher")
+    pairs = {"emit": "emit_async", "shutdown": "shutdown_async"}
+    n = 0
+    for f in db.funcs_in("runners"):
+        per: dict[str, int] = {}
+        for c in db.calls_in(f):
+            tg = [cal.func for cal in db.resolve_call(c, f) if cal.func is not None and cal.func.cls == disp and cal.func.name in set(pairs) | set(pairs.values())]
+            if not tg:
+                continue
+            name = tg[0].name
+            n += 1
+            k = per[name] = per.get(name, 0) + 1
+            # the coroutine context is that of the innermost function holding the call
+            in_async = f.is_async
+            awaited = isinstance(getattr(c, "_parent", None), ast.Await)
+            if in_async:
+                ok = name in pairs.values() and awaited
+                why = "awaited async delivery inside a coroutine" if ok else (f"'{src(c)[:70]}' inside 'async def {f.name}' uses the sync method, which calls on_event only: a processor that implements only on_event_async never receives this event — its node/run span stays open while the run ends" if name in pairs else f"'{src(c)[:70]}' is not awaited: the delivery coroutine is never run")
+            else:
+                ok = name in pairs
+                why = "sync delivery inside a plain function" if ok else f"'{src(c)[:70]}' in the plain function '{f.name}' creates a coroutine nobody awaits: the event is never delivered"
+            rep.add(rule, f"{f.qname}:{name}#{k}", ok, f"{f.module.rel}:{c.lineno}", why)
+    if n < 20:
+        raise AnalysisError(f"only {n} dispatcher deliveries found in the runners")
+
+
 def run(ctx) -> None:
     db, rep = ctx.db, ctx.rep
     rep.rule("C12.R1", "node span typestate: start first, exactly one end/error with the same span id on every normal/Exception exit of a node's region", floor=6)
@@ -132,6 +163,8 @@ def run(ctx) -> None:
     rep.rule("C12.R4", "node span id is published to the executor closure without an intervening suspension point", floor=4)
     rep.rule("C12.R5", "run/map emit nothing before validation has accepted the call", floor=4)
     rep.rule("C12.R6", "a gather collects exceptions, or no explicit raise escapes from the gathered coroutines (all siblings are awaited before an error surfaces)", floor=3)
+    rep.rule("C12.R7", "every event leaves through the channel that reaches every processor: coroutines deliver with the awaited async method, plain functions with the sync one", floor=20)
+    check_delivery_channel(ctx, "C12.R7")
     rep.assume(RUNNER_NO_RAISE_TEXT)
     base = runner_no_raise(db)
     nr = NoRaise(db, base)
@@ -698,6 +731,8 @@ TA = "src/hypergraph/runners/_shared/template_async.py"
 VARIANTS = [
     Variant("map-forwards-on-missing-unvalidated", TS, replace_once("        _validate_on_internal_override(on_internal_override)\n        _validate_on_missing(on_missing)\n", "        _validate_on_internal_override(on_internal_override)\n"), {"C12.R5"}),
     Variant("sync-no-error-event", SS, replace_once("                if active:\n                    dispatcher.emit(build_node_error_event(run_id, node_span_id, run_span_id, node, graph))\n", "                pass\n"), {"C12.R1"}),
+    Variant("async-runner-shuts-down-through-sync-method", "src/hypergraph/runners/async_/runner.py", replace_once("        await dispatcher.shutdown_async()", "        dispatcher.shutdown()"), {"C12.R7"}),
+    Variant("async-node-end-not-awaited", AS, lambda s_: s_.replace("                await dispatcher.emit_async(build_node_end_event(", "                dispatcher.emit_async(build_node_end_event(", 1), {"C12.R7"}),
     Variant("async-error-event-narrow", AS, replace_once("        except Exception:\n            if active:\n                await dispatcher.emit_async(build_node_error_event", "        except ValueError:\n            if active:\n                await dispatcher.emit_async(build_node_error_event"), {"C12.R1"}),
     Variant("async-store-outside-try", AS, replace_once("            # Store result in cache\n            if cache is not None and cache_key:\n                store_in_cache(node, outputs, new_state, cache, cache_key)\n\n            if active:\n                route_evt = build_route_decision_event(run_id, run_span_id, node, graph, new_state)\n                if route_evt is not None:\n                    await dispatcher.emit_async(route_evt)\n                await dispatcher.emit_async(build_node_end_event(run_id, node_span_id, run_span_id, node, graph, duration_ms))\n\n            return node, outputs, input_versions, wait_for_versions\n        except Exception:\n            if active:\n                await dispatcher.emit_async(build_node_error_event(run_id, node_span_id, run_span_id, node, graph))\n            raise\n", "        except Exception:\n            if active:\n                await dispatcher.emit_async(build_node_error_event(run_id, node_span_id, run_span_id, node, graph))\n            raise\n        # Store result in cache\n        if cache is not None and cache_key:\n            store_in_cache(node, outputs, new_state, cache, cache_key)\n\n        if active:\n            route_evt = build_route_decision_event(run_id, run_span_id, node, graph, new_state)\n            if route_evt is not None:\n                await dispatcher.emit_async(route_evt)\n            await dispatcher.emit_async(build_node_end_event(run_id, node_span_id, run_span_id, node, graph, duration_ms))\n\n        return node, outputs, input_versions, wait_for_versions\n"), {"C12.R1"}),
     Variant("sync-cachehit-wrong-span", SS, replace_once("dispatcher.emit(build_node_end_event(run_id, node_span_id, run_span_id, node, graph, duration_ms=0.0, cached=True))", "dispatcher.emit(build_node_end_event(run_id, run_span_id, run_span_id, node, graph, duration_ms=0.0, cached=True))"), {"C12.R1"}),
